@@ -24,7 +24,6 @@ Definition builtin_types : list (tname * tname) :=
    ("uima.cas.AnnotationBase", "uima.cas.TOP"); ("uima.tcas.Annotation", "uima.cas.AnnotationBase");
    ("uima.tcas.DocumentAnnotation", "uima.tcas.Annotation")].
 Definition builtin_prelude : list op := map (fun p => OCreateType (fst p) (snd p)) builtin_types.
-Definition predefined : list tname := "uima.cas.TOP" :: map fst builtin_types.
 
 (* short constructors: case files are large *)
 Definition F (l : Z) (t : tname) (b e : Z) : fs := mkFs l t (Some (b, e)).
@@ -51,7 +50,10 @@ Definition IL := IList.
 
 Record case := mkCase { c_lenient : bool; c_ops : list op; c_obs : list iobs }.
 
-Definition base (lenient : bool) : state index := fst (run cpl (init cpl lenient) builtin_prelude).
+(* the state of a fresh CAS once TypeSystem.__init__ has run, computed once *)
+Definition base_strict : state index := Eval vm_compute in fst (run cpl (init cpl false) builtin_prelude).
+Definition base_lenient : state index := Eval vm_compute in fst (run cpl (init cpl true) builtin_prelude).
+Definition base (lenient : bool) : state index := if lenient then base_lenient else base_strict.
 Definition model_obs (c : case) : list obs := snd (run cpl (base (c_lenient c)) (c_ops c)).
 
 Definition of_t (t : tname) (l : list ent) : list ent := filter (fun e => String.eqb (fst e) t) l.
@@ -79,11 +81,7 @@ Fixpoint all2 {X Y} (p : X -> Y -> bool) (a : list X) (b : list Y) : bool :=
   end.
 Definition check_case (c : case) : bool := all2 obs_ok (model_obs c) (c_obs c).
 
-(* inside the model: every handle exists, no fuel ran out, and no create_type re-declares a predefined type
-   (the code lets that through and leaves an inconsistent hierarchy behind; the parent-map model does not follow it) *)
+(* inside the model: every handle exists and no fuel ran out *)
 Definition inside (o : obs) : bool :=
   match o with OErr EIndex => false | OFuel => false | _ => true end.
-Definition redeclares (o : op) : bool :=
-  match o with OCreateType n _ => memb n predefined | _ => false end.
-Definition premises (c : case) : bool :=
-  forallb inside (model_obs c) && negb (existsb redeclares (c_ops c)).
+Definition premises (c : case) : bool := forallb inside (model_obs c).
